@@ -14,6 +14,7 @@ nonce collection).  `substitution_is_not_detected` states what the read path doe
 -/
 import Rustic.Lemmas.Codec
 import Rustic.Lemmas.Pack
+import Rustic.Model.WriteSites
 namespace Rustic.Props.C04
 open Rustic.Codec
 
@@ -286,6 +287,18 @@ theorem open_after_history {Pw MK : Type} [DecidableEq Pw] (master : MK) (cmds :
   · intro m hm
     obtain ⟨s, hs⟩ := h1 m hm
     exact ⟨s, hmaster s m hs ▸ hs, hmaster⟩
+
+/-- (7'') Every write that does not store a key file stores ciphertext — over the write sites the code ACTUALLY has
+(`Model/WriteSites.lean`; the table is compared with the call sites of `write_bytes` found in the current source by
+`tools/c04_write_sites.py`, channel `c04 sites`): every site that originates content (i.e. does not merely forward what a
+wrapper backend was given), for every file type it can be reached with other than `Key`, writes bytes produced by
+`encrypt_data`/`encrypt_file` in the same function, a pack built by the packer (`pack_file_is_ciphertexts`), or bytes just
+read from storage.  The only plaintext branch (`save_file` for `RepoFile`s with `ENCRYPTED = false`) is reachable for key
+files only, and the only `RepoFile` switching encryption off is the key file. -/
+theorem every_non_key_write_is_encrypted :
+    (∀ s ∈ Rustic.WriteSites.sites, s.cls ≠ .forwards → ∀ t ∈ s.flows, t ≠ .key → s.cls.ciphertext = true) ∧
+    (∀ s ∈ Rustic.WriteSites.sites, s.cls = .plainIfUnencryptedRepoFile → s.flows = [.key]) ∧
+    Rustic.WriteSites.plainFiles.map (·.2) = [.key] := by decide
 
 /-- (9'') A damaged or foreign key file is not skipped: any error other than a MAC failure aborts the search, so a
 malformed file listed before the matching one blocks the correct password (observation replayed on the real code,
